@@ -36,7 +36,7 @@ ASSUMPTIONS = [
     "xlsx workbooks carry the wall clock in their zip metadata: 'byte-identical' is checked on decoded cell contents",
     "the hash seed cannot be varied inside a process; stage B varies it across child processes",
 ]
-REQUIRED = {"stratum:shared_names": 15, "stratum:underspecified": 15, "interleaved_eval": 40, "models>=2": 60,
+REQUIRED = {"failing_evaluation": 10, "stratum:shared_names": 15, "stratum:underspecified": 15, "interleaved_eval": 40, "models>=2": 60,
             "op:rebuild_write": 25, "hashseed_models": 20}
 
 
@@ -48,7 +48,21 @@ def _rename_forms(customs, suffix):
 def _models(draw, stratum):
     n = draw(st.integers(2, 3))
     ms = []
-    if stratum == "underspecified":
+    if stratum == "failing_evals":
+        # models in which some evaluations legitimately FAIL (a formula leaving pymath.sqrt's domain below a
+        # threshold, Coulomb at r = 0 under an inclusive range): the outcome of evaluating at r - value or the
+        # kind of failure - must be the same every time, whatever happened before
+        for i in range(n):
+            m = draw(gen.any_model(["LAMMPS", "GULP"], 1, 3, depth=0, tables=False, customs=False))
+            c = draw(st.sampled_from([0.8, 1.2, 2.0]))
+            m["env"]["custom"] = [{"name": "faulty", "params": ["r"], "expr": {
+                "o": "+", "a": {"o": "pymath", "f": "sqrt", "args": [{"o": "-", "a": {"o": "var", "n": "r"}, "b": {"o": "num", "v": c}}]},
+                "b": {"o": "num", "v": draw(st.integers(1, 5))}}}]
+            m["pair"][0][2] = {"ranges": [{"m": None, "s": None, "body": {"k": "custom", "name": "faulty", "p": []}}]}
+            if len(m["pair"]) > 1:
+                m["pair"][1][2] = {"ranges": [{"m": ">=", "s": 0, "body": {"k": "form", "name": "coul", "p": [1, -2]}}]}
+            ms.append(m)
+    elif stratum == "underspecified":
         for i in range(n):
             t = draw(st.sampled_from(["setfl", "DL_POLY_EAM", "setfl_fs", "DL_POLY_EAM_fs", "excel_eam", "eam_adp"]))
             m = draw(gen.any_model([t], 3, 4, depth=0, tables=False))
@@ -101,7 +115,8 @@ def _case(draw, stratum):
         elif k == "write":
             ops.append([k, draw(st.integers(0, 9))])
         else:
-            ops.append([k, draw(st.integers(0, 9)), draw(st.integers(0, 9)), draw(st.sampled_from([0.5, 1.0, 1.7, 2.25, 3.0]))])
+            rs = [0.5, 1.0, 1.7, 2.25, 3.0] if stratum != "failing_evals" else [0.0, 0.5, 0.5, 1.0, 1.7, 2.25, 3.0]
+            ops.append([k, draw(st.integers(0, 9)), draw(st.integers(0, 9)), draw(st.sampled_from(rs))])
     ops.append(["write", 0])
     return {"stratum": stratum, "models": ms, "ops": ops}
 
@@ -111,7 +126,8 @@ def strategy(tier):
 
 
 def strata(tier):
-    return [("mixed", _case("mixed"), 4), ("shared_names", _case("shared_names"), 3), ("underspecified", _case("underspecified"), 3)]
+    return [("mixed", _case("mixed"), 4), ("shared_names", _case("shared_names"), 3), ("underspecified", _case("underspecified"), 3),
+            ("failing_evals", _case("failing_evals"), 3)]
 
 
 def budget(tier):
@@ -159,7 +175,12 @@ def check_case(case):
                     if not tabs:
                         continue
                     mi, tab = tabs[op[1] % len(tabs)]
-                out = _written(tab, ms[mi]["target"])
+                try:
+                    out = _written(tab, ms[mi]["target"])
+                except Exception as e:
+                    if case["stratum"] != "failing_evals":
+                        raise
+                    out = "FAILS:" + type(e).__name__
                 if mi in first and out != first[mi]:
                     v.append(("write_differs:%s" % kind, "operation %d (%r): output of model %d differs from its first write "
                               "(%d vs %d characters, digests %s vs %s)\n%s" % (oi, op, mi, len(out), len(first[mi]),
@@ -178,14 +199,20 @@ def check_case(case):
                     continue
                 label, f = fns[op[2] % len(fns)]
                 r = op[3]
-                got = f(r)
+                try:
+                    got = f(r)
+                except Exception as e:
+                    if case["stratum"] != "failing_evals":
+                        raise
+                    got = "FAILS:" + type(e).__name__
+                    cls.append("failing_evaluation")
                 key = (mi, label, r)
                 if key in evals and evals[key][0] != got and not (got != got and evals[key][0] != evals[key][0]):
                     v.append(("evaluation_not_pure", "operation %d (%r): %s of model %d at r=%r gave %r, earlier in this "
                               "history it gave %r\n%s" % (oi, op, label, mi, r, got, evals[key][0], ctx(mi))))
                     break
                 evals[key] = (got, oi)
-                want = _reference(ms[mi], label, r)
+                want = _reference(ms[mi], label, r) if not isinstance(got, str) else None
                 if want is not None and not abs(got - want.v) <= 256 * EPS * want.c[0].e + 1e-300:
                     v.append(("evaluation_wrong", "operation %d (%r): %s of model %d at r=%r gave %r, its definition "
                               "gives %r\n%s" % (oi, op, label, mi, r, got, want.v, ctx(mi))))
